@@ -26,7 +26,8 @@ RULE = ('documents of 0-6 board results written by the real JsonLogWriter (ids a
         '(white space, escapes, duplicate keys, damaged texts) and the parser model on documents with optional keys removed. '
         'Independent Python oracle on every document: json.loads == the expected value built by the harness, read-back == what '
         'was written, jsonschema valid. distinct = distinct op lines.')
-TRUSTED = ['CPython json.dumps / json.loads are represented by the re-implementations in Model/Json.lean (differential-tested here)',
+TRUSTED = ['the MiniPy semantics (Model/MiniPy.lean: value semantics, no aliasing) and the code translator (harness/translate_py.py), validated on every run by executing the translated program next to the real code (counters translated_*)',
+           'CPython json.dumps / json.loads are represented by the re-implementations in Model/Json.lean (differential-tested here)',
            'the schema translator harness/translate_schema.py (fails on any keyword outside type/properties/required/items/$ref)',
            'jsonschema (Draft 7) as the reference semantics of the schema keywords used']
 ASSUMPTIONS = ['strings are Unicode scalar sequences (a lone surrogate cannot be represented in the Lean model)',
@@ -36,6 +37,9 @@ REQUIRED_COUNTERS = {t: ['documents', 'empty_documents', 'passed_out_entries', '
                          'astral_text', 'escaped_text', 'xx_without_x_flag', 'json_texts', 'json_texts_rejected']
                      for t in ('quick', 'thorough')}
 
+
+# areas of the pure core whose TRANSLATION (Generated/PyCore.lean) is run next to the real code in this check
+TRANSLATED_AREAS = ('json',)
 
 def prepare(workdir):
     import translate_schema
